@@ -292,6 +292,8 @@ def main():
         cov["runs_per_hour"] = int(len(results) / max(explore_s, 1e-9) * 3600)
         cov["workers"] = args.workers
         cov["timeouts_inconclusive"] = len([r for r in results if r.get("outcome") == "timeout"])
+        cov["harness_faults_inconclusive"] = len(harness)
+        cov["generator_faults"] = len([r for r in results if r.get("outcome") == "gen_error"])
         cov["known_findings_hit"] = {k: len(v) for k, v in known_hits.items()}
         cov["determinism_precheck"] = {"seeds_run_twice": dn, "diffs": 0}
         bad_probes = mod.probe_failures(cov) if hasattr(mod, "probe_failures") else []
